@@ -190,7 +190,7 @@ func (s *Server) blobUploadPost(repoStr string) http.HandlerFunc {
 		// check for mount=digest&from=repo, consider allowing anonymous blob mounts
 		mountStr := r.URL.Query().Get("mount")
 		fromStr := r.URL.Query().Get("from")
-		if mountStr != "" && fromStr != "" {
+		if mountStr != "" && fromStr != "" && rePath.MatchString(fromStr) {
 			if err := s.blobUploadMount(fromStr, repoStr, mountStr, w, r); err == nil {
 				return
 			}
